@@ -1013,4 +1013,467 @@ theorem toy_std : StdF64 toyFmt toyParse := by
 example : Matches Xsd.double (cps (toyFmt 0x3ff0000000000000)) :=
   (f64_finite_valid toy_std _ (by decide) (by decide)).2
 
+/-! ## `f64` printing: an executable model of `impl Display for f64` (`RustF64.display`, compared with the
+implementation's `lexical_form()` on every generated double) and what it discharges of H1–H4
+
+* H1 is a THEOREM of the model (`render_matches`, `display_spec`): whatever the digits and the exponent,
+  `digits_to_dec_str`'s layout is `-?[0-9]+(\.[0-9]+)?`.
+* H2 is a THEOREM of the model pair (`display_roundtrip`): what `display` prints is read back by the model of
+  `f64::from_str` as the same bit pattern (the search keeps only candidates that read back — the very
+  definition of "shortest representation that round-trips").
+* H3 is not needed (`f64_nonfinite_valid_nohyp`: `lexical_form` never prints a non-finite value with `Display`),
+  H4 is a computation on the model of `from_str` (`f64_nonfinite_roundtrip_model`).
+* what remains assumed: `DisplayTotal` — the search succeeds within 17 digits (checked per value by the run), and
+  the tie of both models to `core` (differential: every generated double's lexical form, every parse request).
+* necessity: `H2_necessary`, `H1_or_similar_necessary`. -/
+
+/-- digit strings (as characters) -/
+def DigitStr (D : Str) : Prop := D ≠ [] ∧ ∀ c ∈ D, isDigitCp c.toNat
+
+theorem digitStr_plus {D : Str} (h : DigitStr D) : Matches (plus Xsd.digit) (cps D) := by
+  rw [plus_digit_iff]
+  refine ⟨by simpa [cps] using h.1, ?_⟩
+  intro c hc
+  obtain ⟨y, hy, rfl⟩ := List.mem_map.mp hc
+  exact h.2 y hy
+
+theorem zero_isDigit : isDigitCp ('0' : Char).toNat := by unfold isDigitCp; decide
+
+/-- the unsigned part of `-?[0-9]+(\.[0-9]+)?` -/
+def unsignedDisplay : Re := .cat (plus Xsd.digit) (opt (.cat (chr '.') (plus Xsd.digit)))
+
+theorem unsigned_int {A : Str} (hA : DigitStr A) : Matches unsignedDisplay (cps A) := by
+  have := Matches.cat (digitStr_plus hA) (Matches.altR (a := .cat (chr '.') (plus Xsd.digit)) Matches.eps)
+  simpa [unsignedDisplay, opt] using this
+
+theorem unsigned_frac {A B : Str} (hA : DigitStr A) (hB : DigitStr B) :
+    Matches unsignedDisplay (cps (A ++ '.' :: B)) := by
+  have hdot : Matches (chr '.') [46] := .cls (by decide)
+  have h2 : Matches (opt (.cat (chr '.') (plus Xsd.digit))) ([46] ++ cps B) := .altL (.cat hdot (digitStr_plus hB))
+  have := Matches.cat (digitStr_plus hA) h2
+  have e : cps (A ++ '.' :: B) = cps A ++ ([46] ++ cps B) := by simp [cps]
+  rw [e]; exact this
+
+theorem layout_matches (D : Str) (p : Int) (hD : DigitStr D) : Matches unsignedDisplay (cps (RustF64.layout D p)) := by
+  unfold RustF64.layout
+  split
+  · -- 0.000D
+    have hB : DigitStr (List.replicate (-p).toNat '0' ++ D) := by
+      refine ⟨by simp [hD.1], ?_⟩
+      intro c hc
+      rcases List.mem_append.mp hc with h | h
+      · rw [List.mem_replicate] at h; rw [h.2]; exact zero_isDigit
+      · exact hD.2 c h
+    have hA : DigitStr ['0'] := ⟨by simp, by intro c hc; simp at hc; subst hc; exact zero_isDigit⟩
+    exact unsigned_frac hA hB
+  · split
+    · rename_i hp hlt
+      have hp' : 0 < p.toNat := by omega
+      have hA : DigitStr (D.take p.toNat) := by
+        refine ⟨?_, fun c hc => hD.2 c (List.mem_of_mem_take hc)⟩
+        intro h
+        rcases List.take_eq_nil_iff.mp h with h0 | h0
+        · omega
+        · exact hD.1 h0
+      have hB : DigitStr (D.drop p.toNat) := by
+        refine ⟨?_, fun c hc => hD.2 c (List.mem_of_mem_drop hc)⟩
+        intro h
+        have := List.drop_eq_nil_iff.mp h
+        omega
+      exact unsigned_frac hA hB
+    · have hA : DigitStr (D ++ List.replicate (p.toNat - D.length) '0') := by
+        refine ⟨by simp [hD.1], ?_⟩
+        intro c hc
+        rcases List.mem_append.mp hc with h | h
+        · exact hD.2 c h
+        · rw [List.mem_replicate] at h; rw [h.2]; exact zero_isDigit
+      exact unsigned_int hA
+
+theorem decDigitsAux_isDigit (fuel n : Nat) (acc : Str) (h : ∀ c ∈ acc, isDigitCp c.toNat) :
+    ∀ c ∈ RustF64.decDigitsAux fuel n acc, isDigitCp c.toNat := by
+  induction fuel generalizing n acc with
+  | zero => exact h
+  | succ f ih =>
+    unfold RustF64.decDigitsAux
+    have dig : ∀ k, k < 10 → isDigitCp (digitChar k).toNat := by
+      intro k hk; rw [digitChar_toNat k hk]; unfold isDigitCp; omega
+    split
+    · rename_i hn
+      intro c hc
+      rcases List.mem_cons.mp hc with rfl | hc
+      · exact dig n hn
+      · exact h c hc
+    · apply ih
+      intro c hc
+      rcases List.mem_cons.mp hc with rfl | hc
+      · exact dig _ (Nat.mod_lt _ (by decide))
+      · exact h c hc
+
+theorem decDigits_isDigit (n : Nat) : ∀ c ∈ RustF64.decDigits n, isDigitCp c.toNat :=
+  decDigitsAux_isDigit _ _ [] (by intro c hc; cases hc)
+
+theorem sigDigits_digitStr (d : Nat) : DigitStr (RustF64.sigDigits d) := by
+  unfold RustF64.sigDigits
+  cases h : ((RustF64.decDigits d).reverse.dropWhile (· == '0')).reverse with
+  | nil => exact ⟨by simp, by intro c hc; simp at hc; subst hc; exact zero_isDigit⟩
+  | cons a l =>
+    refine ⟨by simp, ?_⟩
+    intro c hc
+    simp only at hc
+    rw [← h] at hc
+    have h1 := List.mem_reverse.mp hc
+    have h2 := (List.dropWhile_suffix _).subset h1
+    exact decDigits_isDigit d c (List.mem_reverse.mp h2)
+
+theorem signed_of_unsigned {w : List Nat} (neg : Bool) (h : Matches unsignedDisplay w) :
+    Matches Xsd.rustFiniteDisplay (if neg then 45 :: w else w) := by
+  show Matches (.cat (opt (chr '-')) unsignedDisplay) _
+  cases neg with
+  | true =>
+    have hm : Matches (opt (chr '-')) [45] := .altL (.cls (by decide))
+    exact Matches.cat hm h
+  | false =>
+    have hm : Matches (opt (chr '-')) [] := .altR .eps
+    exact Matches.cat hm h
+
+/-- **display_shape (H1 for the model)**: whatever digits and exponent, the layout is `-?[0-9]+(\.[0-9]+)?` -/
+theorem render_matches (neg : Bool) (d : Nat) (q : Int) :
+    Matches Xsd.rustFiniteDisplay (cps (RustF64.render neg d q)) := by
+  unfold RustF64.render
+  have := signed_of_unsigned neg (layout_matches (RustF64.sigDigits d) ((RustF64.decDigits d).length + q) (sigDigits_digitStr d))
+  cases neg <;> simpa [cps] using this
+
+theorem firstGood_spec (x : F64) (neg : Bool) (l : List (Nat × Int)) (s : Str)
+    (h : RustF64.firstGood x neg l = some s) :
+    (∃ d q, s = RustF64.render neg d q) ∧ RustF64.readBack s = x := by
+  induction l with
+  | nil => cases h
+  | cons a rest ih =>
+    obtain ⟨d, q⟩ := a
+    unfold RustF64.firstGood at h
+    simp only at h
+    split at h
+    · rename_i hg
+      injection h with h; subst h
+      exact ⟨⟨d, q, rfl⟩, hg.2⟩
+    · exact ih h
+
+theorem searchDigits_spec (x : F64) (neg : Bool) (num den : Nat) (k : Int) (fuel n : Nat) (s : Str)
+    (h : RustF64.searchDigits x neg num den k fuel n = some s) :
+    (∃ d q, s = RustF64.render neg d q) ∧ RustF64.readBack s = x := by
+  induction fuel generalizing n with
+  | zero => cases h
+  | succ f ih =>
+    unfold RustF64.searchDigits at h
+    split at h
+    · rename_i s' hs'
+      injection h with h; subst h
+      exact firstGood_spec _ _ _ _ hs'
+    · exact ih _ h
+
+/-- everything the model of `Display` can print for a finite bit pattern: the H1 shape, and it READS BACK -/
+theorem display_spec (x : F64) (hx : x < 2 ^ 64) (s : Str) (h : RustF64.display x = some s) :
+    F64.isFinite x = true ∧ Matches Xsd.rustFiniteDisplay (cps s) ∧ RustF64.readBack s = x := by
+  unfold RustF64.display at h
+  cases hf : F64.isFinite x with
+  | false => rw [hf] at h; simp at h
+  | true =>
+    rw [hf] at h
+    simp only [Bool.not_true, Bool.false_eq_true, if_false] at h
+    refine ⟨rfl, ?_⟩
+    split at h
+    · rename_i hz
+      have hz' : @Eq Nat (x % 9223372036854775808) 0 := by simpa using hz
+      have hx' : @LT.lt Nat _ x 18446744073709551616 := hx
+      cases hs : F64.signBit x with
+      | true =>
+        rw [hs] at h; simp only [if_true] at h
+        injection h with h; subst h
+        have hs' : @Eq Nat (x / 9223372036854775808 % 2) 1 := by
+          unfold F64.signBit at hs; simpa using hs
+        have : @Eq Nat x 9223372036854775808 := by omega
+        refine ⟨by decide, ?_⟩
+        rw [show x = (9223372036854775808 : Nat) from this]; decide
+      | false =>
+        rw [hs] at h; simp only [Bool.false_eq_true, if_false] at h
+        injection h with h; subst h
+        have hs' : ¬ @Eq Nat (x / 9223372036854775808 % 2) 1 := by
+          unfold F64.signBit at hs; simpa using hs
+        have : @Eq Nat x 0 := by omega
+        refine ⟨by decide, ?_⟩
+        rw [show x = (0 : Nat) from this]; decide
+    · obtain ⟨⟨d, q, rfl⟩, hr⟩ := searchDigits_spec _ _ _ _ _ _ _ _ h
+      exact ⟨render_matches _ _ _, hr⟩
+
+theorem rustFiniteDisplay_incl_numeric : ∀ w, Matches Xsd.rustFiniteDisplay w → Matches Xsd.doubleNumeric w := by
+  intro w h
+  have h' : Matches (.cat (opt (chr '-')) (.cat (plus Xsd.digit) (opt (.cat (chr '.') (plus Xsd.digit))))) w := h
+  rw [matches_cat] at h'
+  obtain ⟨u, v, rfl, h1, h2⟩ := h'
+  rw [matches_cat] at h2
+  obtain ⟨d, f, rfl, hd, hf⟩ := h2
+  have hs : Matches (opt Xsd.sign) u := by
+    unfold opt at h1 ⊢
+    rw [matches_alt] at h1
+    rcases h1 with h1 | h1
+    · unfold chr at h1
+      rw [matches_cls] at h1
+      obtain ⟨c, rfl, hc⟩ := h1
+      have : c = 45 := by
+        have : 45 ≤ c ∧ c ≤ 45 := by simpa [inCls] using hc
+        omega
+      subst this
+      exact .altL (.cls ((sign_iff 45).mpr (.inr rfl)))
+    · exact .altR h1
+  have hfr : Matches (opt (.cat (chr '.') (.star Xsd.digit))) f := by
+    unfold opt at hf ⊢
+    rw [matches_alt] at hf
+    rcases hf with hf | hf
+    · rw [matches_cat] at hf
+      obtain ⟨p, q, rfl, hp, hq⟩ := hf
+      exact .altL (.cat hp (star_of_plus hq))
+    · exact .altR hf
+  have hdec : Matches Xsd.decimalNoSign (d ++ f) := .altL (.cat hd hfr)
+  have hnum : Matches Xsd.doubleNumeric (u ++ ((d ++ f) ++ [])) := .cat hs (.cat hdec (.altR .eps))
+  rw [List.append_nil] at hnum
+  exact hnum
+
+/-- a string of the H1 shape is parsed by the model of `f64::from_str` as a numeric form -/
+theorem parse_of_finiteDisplay (s : Str) (h : Matches Xsd.rustFiniteDisplay (cps s)) :
+    RustF64.parse s = .ok (RustF64.readBack s) := by
+  have hm : Xsd.matchesS RustF64.numeric s = true :=
+    (matchB_iff _ _).mpr (rustFiniteDisplay_incl_numeric _ h)
+  have hne : s ≠ [] := by rintro rfl; rw [show Xsd.matchesS RustF64.numeric [] = false from numeric_not_nil] at hm; cases hm
+  unfold RustF64.parse
+  rw [if_neg hne, if_pos hm]
+  rfl
+
+/-- **H2 for the model pair** -/
+theorem display_roundtrip (x : F64) (hx : x < 2 ^ 64) (s : Str) (h : RustF64.display x = some s) :
+    RustF64.parse s = .ok x := by
+  obtain ⟨_, h1, h2⟩ := display_spec x hx s h
+  rw [parse_of_finiteDisplay s h1, h2]
+
+/-! ### H1–H4 for the MODEL pair (`displayStd`, `parseU`): nothing about `core` is assumed any more except
+that the search of `display` succeeds (`DisplayTotal`, the classical 17-digit theorem — validated on every
+generated double, where the model's output is also compared with the implementation's) -/
+
+/-- `impl Display for f64`, all values: the three spellings `core` uses for the non-finite ones -/
+def displayStd (x : F64) : Str :=
+  if F64.isNaN x then "NaN".toList
+  else if F64.isFinite x then (RustF64.display x).getD []
+  else if F64.signBit x then "-inf".toList else "inf".toList
+
+/-- `f64::from_str` with the error forgotten -/
+def parseU (s : Str) : Except Unit F64 :=
+  match RustF64.parse s with
+  | .ok v => .ok v
+  | .error _ => .error ()
+
+/-- the ONE residual hypothesis: a decimal of at most 17 digits reads back -/
+def DisplayTotal : Prop :=
+  ∀ x, x < 2 ^ 64 → F64.isFinite x = true → (RustF64.display x).isSome = true
+
+theorem displayStd_finite (x : F64) (hf : F64.isFinite x = true) :
+    displayStd x = (RustF64.display x).getD [] := by
+  unfold displayStd
+  rw [(finite_not_special x hf).1, hf]; simp
+
+/-- **H1–H4 discharged for the model pair**, down to `DisplayTotal` -/
+theorem stdF64_of_model (hT : DisplayTotal) : StdF64 displayStd parseU := by
+  refine ⟨?_, ?_, ⟨by decide, by decide, ?_⟩, ⟨by decide, by decide, by decide, by decide, F64.qNaN, by decide, by decide⟩⟩
+  · intro x hx hf
+    rw [displayStd_finite x hf]
+    cases hd : RustF64.display x with
+    | none => have := hT x hx hf; rw [hd] at this; cases this
+    | some s => exact (display_spec x hx s hd).2.1
+  · intro x hx hf
+    rw [displayStd_finite x hf]
+    cases hd : RustF64.display x with
+    | none => have := hT x hx hf; rw [hd] at this; cases this
+    | some s =>
+      show parseU s = .ok x
+      unfold parseU; rw [display_roundtrip x hx s hd]
+  · intro x hx; unfold displayStd; rw [hx]; rfl
+
+/-- the first sentence of the property for `f64`, all bit patterns, over the executable models of
+`Display` and `FromStr` -/
+theorem f64_all_values_model (hT : DisplayTotal) (x : F64) (hx : x < 2 ^ 64) :
+    (∃ lex, f64Term displayStd x = .lit lex (xsdIri "double".toList) ∧ Matches Xsd.double (cps lex)) ∧
+    (∃ y, f64TryFromTerm parseU (f64Term displayStd x) = .ok y ∧
+      (F64.isNaN x = false → y = x) ∧ (F64.isNaN x = true → F64.isNaN y = true)) :=
+  f64_all_values (stdF64_of_model hT) x hx
+
+/-- per value, with NO hypothesis: whenever the search succeeds on `x` (a computation), `x` is a valid
+`xsd:double` literal and converts back to itself -/
+theorem f64_finite_model (x : F64) (hx : x < 2 ^ 64) (s : Str) (hd : RustF64.display x = some s) :
+    f64Term displayStd x = .lit s (xsdIri "double".toList) ∧ Matches Xsd.double (cps s) ∧
+    RustF64.tryFromTerm (f64Term displayStd x) = .ok x := by
+  obtain ⟨hf, h1, _⟩ := display_spec x hx s hd
+  have hl : f64Lex Gen.Native.asF64 displayStd x = s := by
+    rw [f64Lex_finite _ _ _ hf, displayStd_finite x hf, hd]; rfl
+  refine ⟨?_, rustFiniteDisplay_incl_double _ h1, ?_⟩
+  · unfold f64Term asTerm; rw [hl, f64_datatype]
+  · unfold RustF64.tryFromTerm f64Term
+    rw [tryFrom_asTerm _ _ _ _ own_datatype_whitelisted.2.2.2.2, hl]
+    exact display_roundtrip x hx s hd
+
+-- non-vacuity: the search succeeds (kernel evaluation) on 1.0, 0.1, -0.0, 0.1+0.2, 1e21, 1e-7
+example : RustF64.display 0x3ff0000000000000 = some "1".toList := by decide
+example : RustF64.display 0x3fb999999999999a = some "0.1".toList := by decide
+example : RustF64.display 0x8000000000000000 = some "-0".toList := by decide
+example : RustF64.display 0x3fd3333333333334 = some "0.30000000000000004".toList := by decide
+example : RustF64.display 0x444b1ae4d6e2ef50 = some "1000000000000000000000".toList := by decide
+example : RustF64.display 0x3e7ad7f29abcaf48 = some "0.0000001".toList := by decide
+
+/-! ### H3 / H4 are not needed at all on the current tree -/
+
+/-- non-finite values: valid and denoting, for EVERY `fmt` (the special-casing `lexical_form` never calls
+`Display` on them): no hypothesis -/
+theorem f64_nonfinite_valid_nohyp (fmt : F64 → Str) : F64NonfiniteValid Gen.Native.asF64 fmt := by
+  obtain ⟨nan, inf, ninf, ha, hok⟩ := (shapeOK_iff _).mp f64_shape_valid
+  intro x _ hf
+  simp only [xsdSpecialOK, Bool.and_eq_true, beq_iff_eq] at hok
+  obtain ⟨⟨h1, h2⟩, h3⟩ := hok
+  unfold f64Lex classOf
+  rw [ha]
+  rcases nonfinite_cases x hf with hn | ⟨hn, hi⟩
+  · simp only [hn, if_true]; exact ⟨specialVal_matches h1, h1⟩
+  · cases hs : F64.signBit x
+    · simp [hn, hi]; exact ⟨specialVal_matches h2, h2⟩
+    · simp [hn, hi]; exact ⟨specialVal_matches h3, h3⟩
+
+/-- … and they convert back through the model of `f64::from_str` (H4 is a computation), for every `fmt` -/
+theorem f64_nonfinite_roundtrip_model (fmt : F64 → Str) :
+    RustF64.tryFromTerm (f64Term fmt F64.posInf) = .ok F64.posInf ∧
+    RustF64.tryFromTerm (f64Term fmt F64.negInf) = .ok F64.negInf ∧
+    ∀ x, F64.isNaN x = true → ∃ y, RustF64.tryFromTerm (f64Term fmt x) = .ok y ∧ F64.isNaN y = true := by
+  have hsh : Gen.Native.asF64.lex = .displaySpecial "NaN".toList "INF".toList "-INF".toList := by decide
+  unfold RustF64.tryFromTerm f64Term
+  simp only [tryFrom_asTerm _ _ _ _ own_datatype_whitelisted.2.2.2.2]
+  unfold f64Lex
+  rw [hsh]
+  have p1 : RustF64.parse "INF".toList = .ok F64.posInf := by decide
+  have p2 : RustF64.parse "-INF".toList = .ok F64.negInf := by decide
+  have p3 : RustF64.parse "NaN".toList = .ok F64.qNaN := by decide
+  refine ⟨?_, ?_, ?_⟩
+  · simp only [posInf_facts.2.2.1, posInf_facts.2.2.2.1, posInf_facts.2.2.2.2, Bool.false_eq_true, if_false, if_true,
+      Bool.not_false]; exact p1
+  · simp only [negInf_facts.2.2.1, negInf_facts.2.2.2.1, negInf_facts.2.2.2.2, Bool.false_eq_true, if_false, if_true,
+      Bool.not_true]; exact p2
+  · intro x hx
+    exact ⟨F64.qNaN, by simp only [hx, if_true]; exact p3, by decide⟩
+
+/-! ### … while SOME contract on `fmt` is necessary for the finite values (kernel-checked witnesses) -/
+
+/-- H2 cannot be dropped: a printer with the H1 shape that loses digits breaks the round trip -/
+theorem H2_necessary : ∃ fmt : F64 → Str,
+    (∀ x, Matches Xsd.rustFiniteDisplay (cps (fmt x))) ∧
+    f64TryFromTerm parseU (f64Term fmt 0x3ff8000000000000) ≠ .ok 0x3ff8000000000000 := by
+  refine ⟨fun _ => "1".toList, fun _ => (by decide : Matches Xsd.rustFiniteDisplay (cps "1".toList)), ?_⟩
+  decide
+
+/-- validity needs a hypothesis on the printer too: H1 (or any other inclusion in `L(xsd:double)`) -/
+theorem H1_or_similar_necessary : ∃ fmt : F64 → Str,
+    ¬ Matches Xsd.double (cps (f64Lex Gen.Native.asF64 fmt 0x3ff8000000000000)) :=
+  ⟨fun _ => "1,5".toList, by decide⟩
+
+/-! ### … and the printed form DENOTES the value under the XSD lexical-to-value mapping (what the driver's oracle
+`valid ∧ Dec.doubleVal L = x` asks of the implementation's lexical form, proved here of the model's) -/
+
+theorem finiteDisplay_chars {w : List Nat} (h : Matches Xsd.rustFiniteDisplay w) :
+    ∀ c ∈ w, c = 45 ∨ c = 46 ∨ isDigitCp c := by
+  have h' : Matches (.cat (opt (chr '-')) (.cat (plus Xsd.digit) (opt (.cat (chr '.') (plus Xsd.digit))))) w := h
+  rw [matches_cat] at h'
+  obtain ⟨u, v, rfl, h1, h2⟩ := h'
+  rw [matches_cat] at h2
+  obtain ⟨d, f, rfl, hd, hf⟩ := h2
+  have hu : ∀ c ∈ u, c = 45 := by
+    unfold opt at h1
+    rw [matches_alt] at h1
+    rcases h1 with h1 | h1
+    · unfold chr at h1
+      rw [matches_cls] at h1
+      obtain ⟨c, rfl, hc⟩ := h1
+      have : 45 ≤ c ∧ c ≤ 45 := by simpa [inCls] using hc
+      intro x hx; simp at hx; omega
+    · cases h1; intro c hc; cases hc
+  have hdd := ((plus_digit_iff d).mp hd).2
+  have hff : ∀ c ∈ f, c = 46 ∨ isDigitCp c := by
+    unfold opt at hf
+    rw [matches_alt] at hf
+    rcases hf with hf | hf
+    · rw [matches_cat] at hf
+      obtain ⟨p, q, rfl, hp, hq⟩ := hf
+      unfold chr at hp
+      rw [matches_cls] at hp
+      obtain ⟨c, rfl, hc⟩ := hp
+      have : 46 ≤ c ∧ c ≤ 46 := by simpa [inCls] using hc
+      have hq' := ((plus_digit_iff q).mp hq).2
+      intro x hx
+      rcases List.mem_append.mp hx with hx | hx
+      · simp at hx; left; omega
+      · exact .inr (hq' x hx)
+    · cases hf; intro c hc; cases hc
+  intro c hc
+  rcases List.mem_append.mp hc with hc | hc
+  · exact .inl (hu c hc)
+  · rcases List.mem_append.mp hc with hc | hc
+    · exact .inr (.inr (hdd c hc))
+    · rcases hff c hc with h | h
+      · exact .inr (.inl h)
+      · exact .inr (.inr h)
+
+theorem splitAt_none (p : Char → Bool) (s : Str) (h : ∀ c ∈ s, p c = false) : Dec.splitAt p s = (s, []) := by
+  induction s with
+  | nil => rfl
+  | cons c cs ih =>
+    unfold Dec.splitAt
+    rw [h c (List.mem_cons_self ..)]
+    simp only [Bool.false_eq_true, if_false]
+    rw [ih (fun x hx => h x (List.mem_cons_of_mem _ hx))]
+
+theorem unsignedBody_subset (s : Str) : ∀ c ∈ (Dec.unsignedBody s).2, c ∈ s := by
+  unfold Dec.unsignedBody
+  split
+  · intro c hc; exact List.mem_cons_of_mem _ hc
+  · intro c hc; exact List.mem_cons_of_mem _ hc
+  · intro c hc; exact hc
+
+/-- a string of the H1 shape has no exponent part -/
+theorem expPart_of_finiteDisplay (s : Str) (h : Matches Xsd.rustFiniteDisplay (cps s)) :
+    Dec.expPart s = (false, []) := by
+  have hc := finiteDisplay_chars h
+  have hne : ∀ c ∈ (Dec.unsignedBody s).2, (c == 'e' || c == 'E') = false := by
+    intro c hcs
+    have hm : c.toNat ∈ cps s := List.mem_map.mpr ⟨c, unsignedBody_subset s c hcs, rfl⟩
+    have := hc _ hm
+    have he : c ≠ 'e' := by rintro rfl; revert this; unfold isDigitCp; decide
+    have hE : c ≠ 'E' := by rintro rfl; revert this; unfold isDigitCp; decide
+    simp [he, hE]
+  unfold Dec.expPart
+  rw [splitAt_none _ _ hne]
+  rfl
+
+/-- **the lexical form of a finite `f64` DENOTES it** under the XSD lexical-to-value mapping (the oracle of the
+differential): exact exponent reader = `core`'s on exponent-free strings -/
+theorem display_denotes (x : F64) (hx : x < 2 ^ 64) (s : Str) (h : RustF64.display x = some s) :
+    Dec.doubleVal s = some (some x) := by
+  obtain ⟨_, h1, h2⟩ := display_spec x hx s h
+  have hm : Xsd.matchesS Xsd.doubleNumeric s = true :=
+    (matchB_iff _ _).mpr (rustFiniteDisplay_incl_numeric _ h1)
+  unfold Dec.doubleVal
+  rw [if_pos hm]
+  congr 2
+  unfold Dec.doubleOfNumeric
+  rw [← h2]
+  unfold RustF64.readBack
+  apply doubleOfNumericWith_congr
+  rw [expPart_of_finiteDisplay s h1]
+  rfl
+
+
+example : Dec.doubleVal "0.30000000000000004".toList = some (some 0x3fd3333333333334) :=
+  display_denotes _ (by decide) _ (by decide)
+
 end SophiaProofs.C20
